@@ -206,3 +206,22 @@ def unknown_octet(name):
     for b in (0x02, 0x03, 0x04, 0x05, 0x06, 0x07):
         if b not in known: return b
     return next(b for b in range(16, 128) if b not in known)
+
+
+def binding_selftest(c, trace_module, events, pick, corrupt, what, stateful=False):
+    """Demonstrate the binding on this very run: take a recorded event that validated cleanly, corrupt one logged
+    field, and require that TLC accepts the original and rejects exactly the corrupted copy.  Runs after the verdict
+    phase and only when the run has no violation; a failure is an infrastructure error, never a verdict."""
+    if c.violations:
+        c.cov["binding_selftest"] = "skipped: the run already reports violations"; return
+    src = next((e for e in events if pick(e)), None)
+    if src is None:
+        c.cov["binding_selftest"] = "skipped: no suitable recorded event"; return
+    bad = corrupt(json.loads(src))
+    n0 = c.cov["traces_validated_against_impl"]
+    mism = c.validate(trace_module, [src, json.dumps(bad)], shards=1, stateful=stateful)
+    c.cov["traces_validated_against_impl"] = n0
+    got = sorted({i for i, t in mism if t[0] == "MISMATCH"})
+    if got != [1]:
+        raise Infra("binding self-test failed for %s: corrupted copy of a recorded event (%s) gave mismatches at %r, expected exactly [1]" % (trace_module, what, got))
+    c.cov["binding_selftest"] = "a recorded event was accepted by TLC and its copy with %s was rejected" % what
